@@ -54,8 +54,9 @@ CHECKS = {
  'C04': dict(
     category='proof',
     text='The row invariant (equal lengths, times[0]=tmin, non-decreasing, < tmax, counts >= 0 summing to N, consecutive rows differ by one legal move) '
-         'is a conjunct of the proved loop invariants of Gillespie_SIR/SIS and of the global event-loop invariants of fast_nonMarkov_SIR and fast_SIS '
-         '(queue rule), and implies the postcondition over the returned, trimmed arrays, for all graphs/rates/horizons/initial sets. '
+         'is a conjunct of the proved loop invariants of Gillespie_SIR/SIS and of the global event-loop invariants of fast_nonMarkov_SIR, fast_SIS and fast_nonMarkov_SIS '
+         '(queue rule), and implies the postcondition over the returned, trimmed arrays, for all graphs/rates/horizons/initial sets; the discrete-time rows (t[j] = tmin + j <= tmax, '
+         'counts >= 0 summing to N) are loop invariants of discrete_SIR and basic_discrete_SIS. '
          'Crash-freedom obligations (expovariate rate > 0, index/key safety, definite assignment) are discharged on the same paths. '
          'Other simulators are listed as not covered.',
     design_ref='DESIGN.md section 5 "C04"',
@@ -65,10 +66,10 @@ CHECKS = {
     category='proof',
     text='Row 0 = (N-k-r0, k, r0) with k = len(collection) | 1 (single node) | int(round(N*rho)) (site obligation on random.sample: that many '
          'distinct nodes of G), initially recovered nodes stay recovered, EoNError exactly when rho and initial_infecteds are both given '
-         '(is-not-None semantics), for Gillespie_SIR, Gillespie_SIS, fast_nonMarkov_SIR, fast_SIR, fast_SIS; every internal call site of simulation.py '
+         '(is-not-None semantics), for Gillespie_SIR, Gillespie_SIS, fast_nonMarkov_SIR, fast_SIR, fast_SIS, fast_nonMarkov_SIS, discrete_SIR, basic_discrete_SIS (plain arrays); every internal call site of simulation.py '
          'binds its wrapper parameters to the callee parameters of the same name (delegation-binding analysis, all inputs).',
     design_ref='DESIGN.md section 5 "C05", 3.2',
-    note='As C01; binding schema restricted to the named forwarding parameters. Prefixes of fast_SIS/fast_nonMarkov_SIS/discrete simulators: binding only.',
+    note='As C01; binding schema restricted to the named forwarding parameters. Wrappers (basic_discrete_SIR, percolation_based_discrete_SIR, Gillespie_Arbitrary): binding only.',
     technique='contract-based deductive verification (postconditions, raises clauses, site obligations) + delegation-binding flow analysis'),
  'C06': dict(
     category='other',
